@@ -7,6 +7,8 @@ from . import common
 from .common import call, RAISED
 
 CAP = {'quick': 1500, 'thorough': 4000}
+BIGCAP = 70000
+STATE = {'cap': None}      # per-case cap (BIGLAT cases raise it)
 
 META = {
     'rule': ('cases: EXH (every table <= 3x3; thorough also 3x4, 4x3), stratified random, scales '
@@ -81,7 +83,7 @@ class InitHook(Monitor):
         common.tie(lat, ctx)
         sh = attach.shadow_of(ctx)
         COL.count('judged_construction')
-        judge_pairs(sh, _pairs_of(list(lat)), self.cap, 'construction')
+        judge_pairs(sh, _pairs_of(list(lat)), STATE['cap'] or self.cap, 'construction')
 
 
 class IterMonitor(Monitor):
@@ -99,7 +101,7 @@ class IterMonitor(Monitor):
             COL.count('untied_lattice_skipped')
             return
         sh = attach.shadow_of(ctx)
-        cap = self.cap
+        cap = STATE['cap'] or self.cap
 
         def judge(items, complete, exc):
             COL.count('judged_iter')
@@ -121,7 +123,7 @@ class LenMonitor(Monitor):
             COL.count('untied_lattice_skipped')
             return
         sh = attach.shadow_of(ctx)
-        sl = sh.lattice(self.cap)
+        sl = sh.lattice(STATE['cap'] or self.cap)
         COL.count('judged_len')
         if result != sl.n:
             COL.violation('len', 'len:differs-from-number-of-concepts', sl.n, result)
@@ -137,7 +139,7 @@ class RawGenerator(Monitor):
         if common.get_arg(args, kwargs, 1, 'infimum', ()):
             return
         sh = attach.shadow_of(ctx)
-        cap = self.cap
+        cap = STATE['cap'] or self.cap
 
         def judge(items, complete, exc):
             COL.count('judged_raw_generator')
@@ -172,6 +174,7 @@ def setup(concepts, spec):
 
 
 def cases(tier, seed, spec):
+    yield from gen.biglat(tier)
     yield from gen.ctx_stream(tier, seed)
 
 
@@ -181,7 +184,11 @@ def run_case(concepts, case, spec):
     if ctx is None:
         return
     sh = attach.shadow_of(ctx)
-    cap = CAP[spec['tier']]
+    big = case['fam'].startswith('BIGLAT')
+    cap = BIGCAP if big else CAP[spec['tier']]
+    STATE['cap'] = cap
+    if big:
+        COL.count('biglat_cases')
     sl = sh.lattice(cap)
     if len(set(sh.rows)) < sh.n:
         COL.count('tables_with_duplicate_rows')
